@@ -1851,8 +1851,14 @@ class Scheduler:
 
         # Record the job as pending, since we're submitting it.
         # Note that if the CSE is disabled, this job might have the same `eval_hash` as a prior
-        # one. We don't care about overwriting, however, since they're all equivalent.
-        self._pending_jobs[(job.eval_hash, job.context_hash)] = job
+        # one that is still running. Keep the prior one, unless it does not record provenance
+        # and this job does: only then is this job the better one to collapse duplicates onto.
+        pending_key = (job.eval_hash, job.context_hash)
+        pending_job = self._pending_jobs.get(pending_key)
+        if pending_job is None or (
+            job.recording_provenance() and not pending_job.recording_provenance()
+        ):
+            self._pending_jobs[pending_key] = job
 
         # Submit job.
         if not job.task.script:
@@ -2038,7 +2044,11 @@ class Scheduler:
 
         # Once a job has been recorded to the cache, we don't need to keep around
         # the job, since if we see it again, we'll simply download the result.
-        self._pending_jobs.pop((job.eval_hash, job.context_hash), None)
+        # An equivalent job (e.g. one that opted out of CSE) may still be running under the same
+        # key, so only remove the entry that belongs to this job.
+        pending_key = (job.eval_hash, job.context_hash)
+        if self._pending_jobs.get(pending_key) is job:
+            del self._pending_jobs[pending_key]
 
     def _record_job_tags(self, job: Job) -> None:
         """
